@@ -27,6 +27,7 @@ CASE_TIMEOUT = 200
 QUIESCENCE_SCOPE = "process"   # helpers are polling feeders only
 QUIESCENCE_AFTER = 20.0
 REQUIRED_OBS = ["passes_compared", "gated_passes", "out_of_order_releases", "early_drops", "thread_count_checks",
+                "repeating_streams_compared",
                 "native_harness_tests"]
 RULE = ("compressions {'',LZ4,GZIP,ZLIB} x attribute layouts x shards n in 1..12 x threads T in 1..n+3 x forced "
         "completion order (reverse/random/middle/in-order, seed) x drop position. Distinct = (compression, layout, n, "
@@ -135,6 +136,59 @@ def run_case(case: dict) -> dict:
                                    "msg": f"{label}: release order {gate.release_order()}"})
             if (T >= 2 and len(paths) >= 2):
                 sigs.append([comp, layout, len(paths), T, common.stable_hash(gate.release_order()), None])
+        # ---- repeating streams: every epoch of the Rust reader must be the split again (shuffled: as a multiset).
+        #      Progress is judged on logical steps: three epochs started in a row without a single example is a
+        #      stream that will never deliver again (the guard raises instead of letting the loop spin).
+        import itertools
+        from sedpack.io import dataset_iteration as di
+        original_single_iter = di.RustGenerator._single_iter  # pylint: disable=protected-access
+        empty_epochs = {"n": 0}
+
+        class StalledStream(RuntimeError):
+            pass
+
+        def guarded_single_iter(self):
+            produced = False
+            for example in original_single_iter(self):
+                produced = True
+                empty_epochs["n"] = 0
+                yield example
+            if not produced:
+                empty_epochs["n"] += 1
+                if empty_epochs["n"] >= 3:
+                    raise StalledStream("three epochs in a row delivered nothing")
+
+        di.RustGenerator._single_iter = guarded_single_iter  # pylint: disable=protected-access
+        try:
+            for shuffle in (0, 3, 1000):
+                T = rng.choice([1, 2, len(paths) + 1])
+                label = f"fb/{comp or 'none'} layout={layout} shards={len(paths)} T={T} shuffle={shuffle} repeat=True"
+                empty_epochs["n"] = 0
+                try:
+                    stream = [canonical(e) for e in readers.read(dataset, "rust", "train", shuffle=shuffle, repeat=True,
+                                                                 file_parallelism=T, limit=2 * total + max(1, total // 2))]
+                except StalledStream:
+                    violations.append({"key": "rust-repeating-stream-stops-delivering",
+                                       "msg": f"{label}: after {empty_epochs['n']} epochs without an example the stream was given up"})
+                    continue
+                except BaseException as exc:  # pylint: disable=broad-exception-caught
+                    if isinstance(exc, (KeyboardInterrupt, SystemExit)):
+                        raise
+                    violations.append({"key": "rust-pass-raised", "msg": f"{label}: {type(exc).__name__}: {str(exc)[:200]}"})
+                    continue
+                obs["repeating_streams_compared"] += 1
+                for epoch in range(2):
+                    chunk = stream[epoch * total:(epoch + 1) * total]
+                    same = chunk == python_seq if shuffle == 0 else Counter(chunk) == Counter(python_seq)
+                    if not same:
+                        violations.append({"key": "rust-epoch-differs-from-python",
+                                           "msg": f"{label}: epoch {epoch} of the repeating stream has {len(chunk)} examples and is "
+                                                  f"not the split as the Python reader returns it ({total})"})
+                tail = stream[2 * total:]
+                if shuffle == 0 and tail != python_seq[:len(tail)]:
+                    violations.append({"key": "rust-epoch-differs-from-python", "msg": f"{label}: third epoch starts differently"})
+        finally:
+            di.RustGenerator._single_iter = original_single_iter  # pylint: disable=protected-access
         # ---- early drop at every position (ungated and gated)
         positions = list(range(0, total)) if total <= 8 else sorted(set(rng.sample(range(total), 8)) | {0, 1, total - 1})
         for position in positions:
